@@ -142,6 +142,9 @@ def copt(x, f):
 COQ_DEFS = r'''
 From Coq Require Import String Ascii.
 Definition idc (t : text) : text := t.
+(* `coerce_value(t) is None`: t.strip().lower() == "none" (texts that parse as numbers are not "none") *)
+Definition lowerc (c : N) : N := if ((65 <=? c) && (c <=? 90))%N then (c + 32)%N else c.
+Definition isn (t : text) : bool := text_eqb (map lowerc (strip t)) (lit "none").
 Definition is_plain (c : N) : bool := ((32 <=? c) && (c <? 127) && negb (c =? 34))%N.
 Inductive ot := OS (s : string) | OT (t : text).
 Definition enc_text (t : text) : ot := if forallb is_plain t then OS (string_of_list_ascii (map ascii_of_N t)) else OT t.
@@ -695,11 +698,12 @@ def real_defaults():
 def scenario_term(sc, iter_queries):
     """(per-file results, iter_intermediate_paths answers, hypotheses of C27_precedence hold, every config file as loaded)"""
     q = "[" + "; ".join("(%s, %s)" % (cpath(a), cpath(b)) for a, b in iter_queries) + "]" if iter_queries else "(@nil (path * path))"
-    return ("(let f := %s in (map (zres defaults) (run text idc f %s %s %s), "
+    return ("(let f := %s in let e := %s in let rt := %s in let files := %s in "
+            "(map (zres defaults) (map (file_config text idc isn f e rt false) files), map (zres defaults) (run text idc isn f e rt files), "
             "map (fun po => enc_paths (iter_intermediate_paths text f (fst po) (snd po))) %s, "
-            "fs_wfb text f && wfdb text (r_overrides text %s), "
+            "fs_wfb text f && wfdb text (r_overrides text rt), "
             "map (fun nc => enc_res (load_file text idc (fst nc) (snd nc))) (List.concat (map snd f))))") % (
-        sc.coq_fs(), sc.coq_env(), sc.coq_root(), sc.coq_files(), q, sc.coq_root())
+        sc.coq_fs(), sc.coq_env(), sc.coq_root(), sc.coq_files(), q)
 
 
 # ------------------------------------------------------------------------------------------------------------------------
@@ -1159,7 +1163,7 @@ def ladder(ctx, root):
     subsets = [(1 << i, 1 << ((i + 5) % nl)) for i in range(nl)]
     subsets += [(((1 << nl) - 1) & ~(1 << i), ((1 << nl) - 1)) for i in range(nl)] + [(0, 0), ((1 << nl) - 1, 0)]
     if ctx.tier == "quick":
-        subsets += [(rng.randrange(1 << nl), rng.randrange(1 << nl)) for _ in range(220)]
+        subsets += [(rng.randrange(1 << nl), rng.randrange(1 << nl)) for _ in range(150)]
     else:
         subsets += [(s, rng.randrange(1 << nl)) for s in range(1 << nl)]
     keys = [("core", "max_line_length", 100), ("indentation", "tab_space_size", 20)]   # value of layer i = base + i
@@ -1348,7 +1352,7 @@ def _run(ctx, coq_ok, base_tmp):
 
     # ---- scenarios: generate, write, build the Coq terms
     scs = fixed_scenarios(rng)
-    n_rand = 80 if quick else 800
+    n_rand = 60 if quick else 800
     for i in range(n_rand):
         scs.append(gen_scenario(rng, malformed=(i % 4 == 3), conflicts=(i % 3 != 0)))
     B = Batch()
@@ -1385,7 +1389,7 @@ def _run(ctx, coq_ok, base_tmp):
         # ---- the implementation on every scenario
         t_impl0 = coq.now()
         n_hist = 0
-        max_hist = 10 if quick else 100
+        max_hist = 8 if quick else 100
         for si, (sc, info) in enumerate(zip(scs, infos)):
             root = info["root"]
             with Redirect(os.path.join(root, *sc.home), None if sc.xdg is None else os.path.join(root, *sc.xdg), os.path.join(root, *sc.cwd)):
@@ -1457,10 +1461,11 @@ def _run(ctx, coq_ok, base_tmp):
             ctx.broken_obligation("correspondence %s" % what, detail)
     hyp_ok = 0
     for sc, info in zip(scs, infos):
-        runs, iters, wf, loaded = B[info["h"]]
+        directs, runs, iters, wf, loaded = B[info["h"]]
         hyp_ok += 1 if wf else 0
-        mres = [dec_zres(r, dflt_texts) for r in runs]
-        by_text = {(p, t): m for (p, t), m in zip(info["mfiles"], mres)}
+        mres = [dec_zres(r, dflt_texts) for r in directs]
+        by_text = {(p, t): m for (p, t), m in zip(info["mfiles"], [dec_zres(r, dflt_texts) for r in runs])}
+        by_text_nodialect_req = {(p, t): m for (p, t), m in zip(info["mfiles"], mres)}
         for (p, t), m, d0 in zip(sc.sql, mres, info["direct"]):
             nt = m[0] == "err" or covers_two_layers(sc, p)
             ctx.case((sc.label, repr(sc.describe()["files"]), p) if nt else None, bucket="scenario-file:" + (m[0] if m[0] == "err" else "ok"),
@@ -1474,8 +1479,12 @@ def _run(ctx, coq_ok, base_tmp):
                 m = by_text[(p, ar)]
                 ctx.case(None, bucket="scenario-file-via-linter")
                 if r[0] == "nodialect":
-                    # legitimate when the file's effective config has no dialect; with a dialect it is a finding
-                    eff = model_to_py(m[1]).get("core", {}).get("dialect") if m[0] == "ok" and isinstance(model_to_py(m[1]).get("core"), dict) else None
+                    # the model says the same (ERuntime); it is legitimate when the file's effective config has no dialect,
+                    # with a dialect it is the finding of C27_inline_dialect_honoured_by_path_refuted
+                    m0 = by_text_nodialect_req[(p, ar)]
+                    eff = model_to_py(m0[1]).get("core", {}).get("dialect") if m0[0] == "ok" and isinstance(model_to_py(m0[1]).get("core"), dict) else None
+                    if m != ("err", "ERuntime"):
+                        bad("Model.Config.file_config vs Linter.load_raw_file_and_config", {"input": sc.describe(), "file": "/".join(p), "impl": "No dialect was specified", "model": m[0]})
                     if eff is not None:
                         inline_d = any(l.replace(" ", "").startswith(("--sqlfluff:dialect:", "--sqlfluff:core:dialect:")) for l in ar.splitlines())
                         ctx.violation("dialect-required-before-inline", "linting by path refuses a file (No dialect was specified) whose effective configuration does set a dialect",
@@ -1500,6 +1509,9 @@ def _run(ctx, coq_ok, base_tmp):
         if "history" in info:
             check_history(ctx, sc, info, by_text, bad)
     ctx.coverage_extra["scenarios"] = len(scs)
+    import resource
+    ru_s, ru_c = resource.getrusage(resource.RUSAGE_SELF), resource.getrusage(resource.RUSAGE_CHILDREN)
+    ctx.coverage_extra["cpu_s"] = {"harness_process": round(ru_s.ru_utime + ru_s.ru_stime, 1), "coqc_children": round(ru_c.ru_utime + ru_c.ru_stime, 1)}
     ctx.coverage_extra["scenario_sql_files"] = sum(len(sc.sql) for sc in scs)
     ctx.coverage_extra["theorem_hypotheses_checked_true"] = hyp_ok
     if hyp_ok != len(scs):
